@@ -214,13 +214,6 @@ def run_history(sc, seed, i, known, stats):
             # the deletion plan still sees the hidden paths, which the single source list of Engine.run cannot express)
             sel = (lambda sl: [t for t in sl if t[1] not in hidden]) if hidden else None
             case, ob, raw = ew.run_once(sc, src, dst, fl, ids, k=k, extra_args=extra, select=sel)
-            if which == "aux" and "--checksum-db=true" in aux and ".sy-checksums.db" not in raw["before"]:
-                # ChecksumDatabase::open creates the file before the deletions are planned: the plan sees it
-                t = case.split(" ")
-                pid_ = ids.path(".sy-checksums.db")
-                t[4] = (t[4] + "," if t[4] != "-" else "") + "f:%s:24576:%d:999" % (pid_, ew.now_of(k))
-                t[5] = (t[5] + "," if t[5] != "-" else "") + pid_
-                case = " ".join(t)
             stats["runs"] += 1
             metas = sorted(set([rel for rel in set(raw["before"]) | set(raw["after"]) if is_meta(rel)]) | set(META))   # the database is created when opened: it may exist only DURING the run
             out[which] = (raw, ob)
